@@ -98,6 +98,31 @@ def wave_unit_lemmas():
                 ctx.oblige('C14::planck.unit_independent[%s,%s]' % (u, vu), S.eq(si, base))
     out.append(('C14::planck_unit_independence', planck))
 
+    def planck_array_argument(ctx):
+        """planck_radiance / planck_exitance / Blackbody-style use with an ARRAY of wavelengths: the caller's array is
+        not written (the unit conversion happens on a copy), so a second call on the same array gives the same
+        values, element by element the scalar law."""
+        n = ctx.fresh_int('n')
+        ctx.assume(n >= 1)
+        T = ctx.fresh_real('temp')
+        ctx.assume(T > 0)
+        i, = ints(ctx, 'i')
+        for fn in ('planck_radiance', 'planck_exitance'):
+            for u in ('nm', 'um'):
+                wave = array(ctx, 'wave_%s_%s' % (fn, u), (n,), 'float')
+                q = z3.Int(ctx._name('wq'))
+                ctx.assume(z3.ForAll([q], z3.Implies(z3.And(q >= 0, q < n), S.z(wave.at((q,))) > 0)), axiom=True)
+                w_before = wave.snapshot()
+                first = call(ctx, fn, wave, T, u, 'wlam')
+                ctx.oblige('C14::%s.array_argument_not_written[%s]' % (fn, u), len(wave.cell.writes) == 0,
+                           info={'writes': [str(w_)[:80] for w_ in wave.cell.writes][:3]})
+                second = call(ctx, fn, wave, T, u, 'wlam')
+                with_hyp_(ctx, [i >= 0, i < n], lambda: ctx.oblige(
+                    'C14::%s.second_call_on_the_same_array_agrees[%s]' % (fn, u),
+                    S.and_(S.eq(A.as_array(ctx, first).at((i,)), A.as_array(ctx, second).at((i,))),
+                           S.eq(wave.at((i,)), w_before.at((i,))))))
+    out.append(('C14::planck_array_argument', planck_array_argument))
+
     def vega(ctx):
         """vegaflux: for every band the wavelength and flux returned in unit U / flux unit V describe the
         same physical zero point."""
